@@ -94,6 +94,22 @@ pub fn check_kind(t: &Trace<'_>, m: &Model, out: &mut CaseOut, prop: &'static st
             break;
         }
     }
+    // (c'') a resumed connection on which the client wrote a DISCONNECT that the application never
+    // asked for there (disconnect() was not called on that handle) and which therefore ended
+    // before the owed packets went out
+    for ci in t.conns.iter().filter(|c| c.established && c.connack.as_ref().is_some_and(|k| k.0)) {
+        let c = &w.conns[ci.idx];
+        let wrote_disconnect = c.out.packets.iter().any(|p| matches!(p.pkt, crate::refcodec::CPacket::Disconnect { .. }));
+        let asked = t.log.ops.iter().any(|o| o.conn == Some(ci.idx) && o.kind == "disconnect");
+        if !wrote_disconnect || asked {
+            continue;
+        }
+        out.count("resumed_connections_with_a_disconnect_nobody_asked_for", 1);
+        let t0 = t.log.ops[ci.connect_op.unwrap()].ev_ret;
+        if let Some(msg) = m.msgs.iter().find(|x| x.kind == kind && x.ev_accept < ci.ev_begin && x.outstanding_at(t0) && !x.releasing_at(t0) && !x.txs.iter().any(|tx| tx.conn == ci.idx)) {
+            out.violations.push(viol(prop, format!("{}/not-replayed/{}/connection-closed-by-a-disconnect-nobody-asked-for", prop, kind), format!("resumed conn {}: the client wrote a DISCONNECT although disconnect() was never called on that handle, and op#{} id {} was not retransmitted there", ci.idx, msg.op, msg.pid)));
+        }
+    }
     // (c) every resumed, drained connection carries each outstanding message exactly once
     for ci in t.conns.iter().filter(|c| c.established && c.connack.as_ref().is_some_and(|k| k.0)) {
         let Some(e_d) = drained_at(t, ci.idx) else { continue };
